@@ -1,5 +1,6 @@
 import Exetera.Lemmas.Merge
 import Exetera.Lemmas.MergeFrame
+import Exetera.Lemmas.MergeWhole
 import Exetera.Props.C03
 /-!
 # C02 — DataFrame.merge returns the relational join; hints change speed, never content
@@ -432,6 +433,192 @@ theorem ordered_path_key_order (how : String) (hhow : how = "left" ∨ how = "ri
   relJoin_keys_sorted how hhow hl hr
 
 example : (relJoin "right" [0, 2, 2] [2, 5, 5]).map (rowKey [0, 2, 2] [2, 5, 5]) = [2, 2, 5, 5].map some := by decide
+
+/-! ## the whole destination frame: `merge_correct`, `hints_irrelevant`, `never_raises_on_truthful_hints` -/
+
+/-- the names `merge` reserves for its own fields in the destination: the two map fields of the ordered path and the two
+    validity flags of the unordered path -/
+def auxNames (i : Input) : List String :=
+  ["_left_map", "_right_map", "valid" ++ i.leftSuffix, "valid" ++ i.rightSuffix]
+
+/-- **truthful hints**: an ordered hint is only given for a non-decreasing key column, a unique hint only for a key column
+    without duplicates (`lk` / `rk` are the order embedding of the key tuples) -/
+structure TruthfulHints (i : Input) : Prop where
+  leftOrdered : i.hintLO = some true → Sorted i.lk
+  rightOrdered : i.hintRO = some true → Sorted i.rk
+  leftUnique : i.hintLU = some true → i.lk.Nodup
+  rightUnique : i.hintRU = some true → i.rk.Nodup
+
+/-- **the frames the property speaks about**: a join mode of the property; `left_on` / `right_on` of the same shape, naming
+    non-indexed columns as long as the key embedding; every field to map exists, is as long as its side's key column, an
+    indexed-string field is well formed (C01) and none of its entries exceeds the value buffer `cs * vf` of the streamed
+    mapper (the supported regime of C04; `1 << 23` bytes with the defaults); the destination names — the four reserved
+    names and the documented (suffixed) names of the mapped fields — are pairwise distinct; fewer than 2^62 rows per
+    side (the int64 marker `INVALID_INDEX_64`); chunk size ≥ 1. -/
+structure WellFormed (i : Input) (cs vf : Nat) : Prop where
+  how : i.how = "left" ∨ i.how = "right" ∨ i.how = "inner" ∨ i.how = "outer"
+  tuples : i.leftTuple = i.rightTuple
+  tupleLen : i.leftTuple = true → i.leftOn.length = i.rightOn.length
+  leftOn : i.leftOn ≠ []
+  rightOn : i.rightOn ≠ []
+  leftKeys : ∀ k ∈ i.leftOn, ∃ c, look i.left k = some c ∧ c.isIndexed = false ∧ c.len = i.lk.length
+  rightKeys : ∀ k ∈ i.rightOn, ∃ c, look i.right k = some c ∧ c.isIndexed = false ∧ c.len = i.rk.length
+  leftCols : ∀ k ∈ leftToMap i, ∃ c, look i.left k = some c ∧ ColOK c i.lk.length (cs * vf)
+  rightCols : ∀ k ∈ rightToMap i, ∃ c, look i.right k = some c ∧ ColOK c i.rk.length (cs * vf)
+  names : (auxNames i ++ (leftToMap i).map (leftName i) ++ (rightToMap i).map (rightName i)).Nodup
+  sizeL : i.lk.length ≤ 4611686018427387904
+  sizeR : i.rk.length ≤ 4611686018427387904
+  chunk : 1 ≤ cs
+
+/-- the recorded ASSUMPTION about `pandas.merge` (a parameter of the model; the harness checks it on every case that takes
+    the unordered path): on the key columns it returns the rows of the relational join, in some order -/
+def PandasOK (pandas : String → List Int → List Int → Except Err Pairs) (i : Input) : Prop :=
+  ∃ pairs, pandas i.how i.lk i.rk = .ok pairs ∧ pairs.Perm (relJoin i.how i.lk i.rk)
+
+/-- **`dest` is the table whose rows are `rows`**: under its documented name (`leftName` / `rightName`: suffixed exactly
+    when the other side maps a field of the same name) every mapped field of the left (right) frame holds, in row `r`,
+    the source value at the left (right) row number of `rows[r]`, or the type's empty value where that side is unmatched;
+    every column of `dest` has `rows.length` rows; `dest` has no column besides these and `merge`'s reserved ones. -/
+structure IsJoinFrame (i : Input) (dest : Frame) (rows : List JoinRow) : Prop where
+  left : ∀ k ∈ leftToMap i, ∀ c, look i.left k = some c →
+    ∃ out, look dest (leftName i k) = some out ∧ selectCol c (rows.map (·.1)) = some out
+  right : ∀ k ∈ rightToMap i, ∀ c, look i.right k = some c →
+    ∃ out, look dest (rightName i k) = some out ∧ selectCol c (rows.map (·.2)) = some out
+  len : ∀ n c, look dest n = some c → c.len = rows.length
+  cols : ∀ n ∈ names dest, n ∈ auxNames i ∨ n ∈ (leftToMap i).map (leftName i) ∨ n ∈ (rightToMap i).map (rightName i)
+
+theorem getD_true {o : Option Bool} (h : o.getD false = true) : o = some true := by
+  cases o with
+  | none => cases h
+  | some b => cases b <;> simp_all
+
+/-- **C02, `merge_correct`.** For every join mode left / right / inner / outer, every truthful combination of the four
+    hints, all well-formed frames (single or compound keys, field subsets, name clashes, every field type incl. indexed
+    strings), every chunk size ≥ 1, and `pandas.merge` assumed to return a permutation of the relational join:
+    `merge` succeeds, and its destination frame is the table of a row list `rows` that is a permutation of
+    `relJoin how lk rk` — same multiset of (left columns | empty, right columns | empty) rows, every destination column
+    of equal length, clashing names suffixed as documented. On the ordered path (`isOrdered`: both ordered hints, single
+    key, mode ≠ outer) `rows` IS `relJoin how lk rk` in its own order, and the row keys are non-decreasing. -/
+theorem merge_correct (pandas : String → List Int → List Int → Except Err Pairs) (i : Input) (cs vf fuel : Nat)
+    (hwf : WellFormed i cs vf) (hth : TruthfulHints i) (hpd : PandasOK pandas i)
+    (hfuel : i.lk.length + i.rk.length + 2 * (relJoin i.how i.lk i.rk).length + 1 ≤ fuel) :
+    ∃ dest rows, merge pandas i cs vf fuel = .ok dest ∧ rows.Perm (relJoin i.how i.lk i.rk) ∧ IsJoinFrame i dest rows ∧
+      (isOrdered i = true → rows = relJoin i.how i.lk i.rk ∧
+        ∃ ks, rows.map (rowKey i.lk i.rk) = ks.map some ∧ Sorted ks) := by
+  have hsup : supportedModes.contains i.how = true := by
+    rcases hwf.how with h | h | h | h <;> rw [h] <;> decide
+  rw [merge_front pandas i cs vf fuel hsup hwf.tuples hwf.tupleLen hwf.leftOn hwf.rightOn hwf.leftKeys hwf.rightKeys
+    (fun k hk => by obtain ⟨c, h1, h2⟩ := hwf.leftCols k hk; exact ⟨c, h1, h2.len⟩)
+    (fun k hk => by obtain ⟨c, h1, h2⟩ := hwf.rightCols k hk; exact ⟨c, h1, h2.len⟩)]
+  cases hord : isOrdered i with
+  | true =>
+    simp only [if_true]
+    -- what `ordered` means
+    simp only [isOrdered, Bool.and_eq_true] at hord
+    obtain ⟨⟨⟨⟨o1, o2⟩, _⟩, _⟩, o5⟩ := hord
+    have hhow : i.how = "left" ∨ i.how = "right" ∨ i.how = "inner" := by simpa using o5
+    have hl : Sorted i.lk := hth.leftOrdered (getD_true o1)
+    have hr : Sorted i.rk := hth.rightOrdered (getD_true o2)
+    have hlu : Truthful (i.hintLU.getD false) i.lk := fun h => strict_of_sorted_nodup hl (hth.leftUnique (getD_true h))
+    have hru : Truthful (i.hintRU.getD false) i.rk := fun h => strict_of_sorted_nodup hr (hth.rightUnique (getD_true h))
+    have hs := sentinel_choice (i.hintLU.getD false) (i.hintRU.getD false) i.lk.length i.rk.length
+    generalize hinv : (if (i.hintLU.getD false || i.hintRU.getD false) = true then
+      (if ((i.lk.length : Int) < 2147483647 && (i.rk.length : Int) < 2147483647) = true then (2147483647 : Int)
+        else 4611686018427387904) else 4611686018427387904) = inv at hs
+    have hsl := hwf.sizeL
+    have hsr := hwf.sizeR
+    have hinvLR : (i.lk.length : Int) ≤ inv ∧ (i.rk.length : Int) ≤ inv := by
+      rw [← hinv]
+      split
+      · split
+        · rename_i hc
+          simp only [Bool.and_eq_true, decide_eq_true_eq] at hc
+          omega
+        · omega
+      · omega
+    obtain ⟨p, o, h1, h2, m1, m2, c1, c2⟩ := merge_ordered_columns_correct i.how hhow (i.hintLU.getD false)
+      (i.hintRU.getD false) i.lk i.rk hl hr hlu hru cs vf hwf.chunk inv hinvLR.1 hinvLR.2 fuel hfuel
+    obtain ⟨dest, d1, d2, d3, d4, d5⟩ := orderedMerge_frame i (leftToMap i) (rightToMap i) i.lk.length i.rk.length
+      (i.hintLU.getD false) (i.hintRU.getD false) cs vf fuel inv p o (leftSel i.how i.lk i.rk) (rightSel i.how i.lk i.rk)
+      (relJoin i.how i.lk i.rk).length o5 hs h1 h2
+      (fun m hm => by rw [m1 m hm]; simp [encSel, leftSel])
+      (fun m hm => by rw [m2 m hm]; simp [encSel, rightSel])
+      (by simp [leftSel]) (by simp [rightSel])
+      (fun k hk => by
+        obtain ⟨c, g1, g2⟩ := hwf.leftCols k hk
+        obtain ⟨out, g3, g4⟩ := c1 c g2
+        exact ⟨c, out, g1, g3, g4⟩)
+      (fun k hk => by
+        obtain ⟨c, g1, g2⟩ := hwf.rightCols k hk
+        obtain ⟨out, g3, g4⟩ := c2 c g2
+        exact ⟨c, out, g1, g3, g4⟩)
+      (nodup_ordered_names _ _ _ _ _ _ hwf.names)
+    refine ⟨dest, relJoin i.how i.lk i.rk, d1, List.Perm.refl _, ⟨d2, d3, d4, ?_⟩, fun _ => ⟨rfl, ?_⟩⟩
+    · intro n hn
+      rcases d5 n hn with h | h | h
+      · left
+        simp only [auxNames, List.mem_cons] at h ⊢
+        rcases h with h | h | h
+        · exact Or.inl h
+        · exact Or.inr (Or.inl h)
+        · cases h
+      · exact Or.inr (Or.inl h)
+      · exact Or.inr (Or.inr h)
+    · exact ordered_path_key_order i.how hhow i.lk i.rk hl hr
+  | false =>
+    simp only [Bool.false_eq_true, if_false]
+    obtain ⟨pairs, hp1, hp2⟩ := hpd
+    obtain ⟨dest, d1, d2, d3, d4, d5⟩ := unorderedMerge_frame pandas i (leftToMap i) (rightToMap i) pairs (cs * vf) hp1
+      (fun x hx => by
+        obtain ⟨q, hq, hqx⟩ := List.mem_map.mp hx
+        exact (relJoin_in_range i.how i.lk i.rk q (hp2.subset hq)).1 x hqx)
+      (fun x hx => by
+        obtain ⟨q, hq, hqx⟩ := List.mem_map.mp hx
+        exact (relJoin_in_range i.how i.lk i.rk q (hp2.subset hq)).2 x hqx)
+      hwf.leftCols hwf.rightCols (nodup_unordered_names _ _ _ _ _ _ hwf.names)
+    refine ⟨dest, pairs, d1, hp2, ⟨d2, d3, d4, ?_⟩, fun h => by cases h⟩
+    intro n hn
+    rcases d5 n hn with h | h | h
+    · left
+      simp only [auxNames, List.mem_cons] at h ⊢
+      rcases h with h | h | h
+      · exact Or.inr (Or.inr (Or.inl h))
+      · exact Or.inr (Or.inr (Or.inr (Or.inl h)))
+      · cases h
+    · exact Or.inr (Or.inl h)
+    · exact Or.inr (Or.inr h)
+
+/-- the same call without any hint -/
+def noHints (i : Input) : Input := { i with hintLO := none, hintLU := none, hintRO := none, hintRU := none }
+
+/-- **C02, `hints_irrelevant`.** With truthful hints `merge` produces the same table as the hint-free call: both succeed,
+    both destinations are the table (`IsJoinFrame`: same fields, same documented names, every column the selected source
+    rows) of a row list, and the two row lists are permutations of each other — the hints change which code runs (streamed
+    generators vs `pandas.merge`) and the row order, never the multiset of (left columns, right columns) rows. -/
+theorem hints_irrelevant (pandas : String → List Int → List Int → Except Err Pairs) (i : Input) (cs vf fuel : Nat)
+    (hwf : WellFormed i cs vf) (hth : TruthfulHints i) (hpd : PandasOK pandas i)
+    (hfuel : i.lk.length + i.rk.length + 2 * (relJoin i.how i.lk i.rk).length + 1 ≤ fuel) :
+    ∃ dest dest0 rows rows0, merge pandas i cs vf fuel = .ok dest ∧ merge pandas (noHints i) cs vf fuel = .ok dest0 ∧
+      rows.Perm rows0 ∧ IsJoinFrame i dest rows ∧ IsJoinFrame i dest0 rows0 := by
+  obtain ⟨dest, rows, a1, a2, a3, _⟩ := merge_correct pandas i cs vf fuel hwf hth hpd hfuel
+  have hwf0 : WellFormed (noHints i) cs vf :=
+    ⟨hwf.how, hwf.tuples, hwf.tupleLen, hwf.leftOn, hwf.rightOn, hwf.leftKeys, hwf.rightKeys, hwf.leftCols, hwf.rightCols,
+      hwf.names, hwf.sizeL, hwf.sizeR, hwf.chunk⟩
+  have hth0 : TruthfulHints (noHints i) := ⟨nofun, nofun, nofun, nofun⟩
+  obtain ⟨dest0, rows0, b1, b2, b3, _⟩ := merge_correct pandas (noHints i) cs vf fuel hwf0 hth0 hpd hfuel
+  exact ⟨dest, dest0, rows, rows0, a1, b1, a2.trans b2.symm, a3, ⟨b3.left, b3.right, b3.len, b3.cols⟩⟩
+
+/-- **C02, `never_raises_on_truthful_hints`.** Under the same hypotheses no error of any kind comes out of `merge`: no
+    validation error, no `TypeError` / `ValueError` of the dispatch, no out-of-bounds access or exhausted fuel in a streamed
+    generator or column mapper, no "field already exists". -/
+theorem never_raises_on_truthful_hints (pandas : String → List Int → List Int → Except Err Pairs) (i : Input)
+    (cs vf fuel : Nat) (hwf : WellFormed i cs vf) (hth : TruthfulHints i) (hpd : PandasOK pandas i)
+    (hfuel : i.lk.length + i.rk.length + 2 * (relJoin i.how i.lk i.rk).length + 1 ≤ fuel) :
+    ∀ e, merge pandas i cs vf fuel ≠ .error e := by
+  obtain ⟨dest, _, h, _⟩ := merge_correct pandas i cs vf fuel hwf hth hpd hfuel
+  intro e he
+  rw [h] at he
+  cases he
 
 /-!
 ## The full statements, and what is missing
